@@ -98,9 +98,10 @@ class SimManagerQueue(_KernelObject):
         else:
             while self._full():
                 if timeout is not None:
-                    # a timed put: modelled as "may expire whenever it would have to wait"
-                    raise _queue.Full
-                k.block(lambda: not self._full() or self.m.closed, (self.role, "put"))
+                    if not k.timed_block(lambda: not self._full() or self.m.closed, (self.role, "put")):
+                        raise _queue.Full
+                else:
+                    k.block(lambda: not self._full() or self.m.closed, (self.role, "put"))
                 self.m._check()
         self.items.append(data)
         self.put_log.append((k.step, k.current.name, item))
@@ -118,8 +119,10 @@ class SimManagerQueue(_KernelObject):
         else:
             while not self.items:
                 if timeout is not None:
-                    raise _queue.Empty
-                k.block(lambda: bool(self.items) or self.m.closed, (self.role, "get"))
+                    if not k.timed_block(lambda: bool(self.items) or self.m.closed, (self.role, "get")):
+                        raise _queue.Empty
+                else:
+                    k.block(lambda: bool(self.items) or self.m.closed, (self.role, "get"))
                 self.m._check()
         item = pickle.loads(self.items.pop(0))
         self.get_log.append((k.step, k.current.name, item))
@@ -261,10 +264,14 @@ class SimLock(_KernelObject):
         k = self.k
         k.switch(f"{self.role}.acquire", sync=True)
         if self.held:
-            if not block or timeout is not None:
+            if not block:
                 return False
             while self.held:
-                k.block(lambda: not self.held, (self.role, "acquire"))
+                if timeout is not None:
+                    if not k.timed_block(lambda: not self.held, (self.role, "acquire")):
+                        return False
+                else:
+                    k.block(lambda: not self.held, (self.role, "acquire"))
         self.held = True
         self.holder = k.current
         return True
@@ -303,10 +310,14 @@ class SimRLock(_KernelObject):
             self.count += 1
             return True
         if self.owner is not None:
-            if not block or timeout is not None:
+            if not block:
                 return False
             while self.owner is not None:
-                k.block(lambda: self.owner is None, (self.role, "acquire"))
+                if timeout is not None:
+                    if not k.timed_block(lambda: self.owner is None, (self.role, "acquire")):
+                        return False
+                else:
+                    k.block(lambda: self.owner is None, (self.role, "acquire"))
         self.owner = me
         self.count = 1
         return True
@@ -347,9 +358,11 @@ class SimEvent(_KernelObject):
     def wait(self, timeout=None):
         k = self.k
         k.switch(f"{self.role}.wait", sync=True)
-        if timeout is not None:
-            return self.flag
         while not self.flag:
+            if timeout is not None:
+                if timeout <= 0:
+                    return False
+                return k.timed_block(lambda: self.flag, (self.role, "wait"))
             k.block(lambda: self.flag, (self.role, "wait"))
         return True
 
@@ -433,10 +446,14 @@ class SimPipeQueue(_KernelObject):
         k = self.k
         k.switch(f"{self.role}.put", sync=True)
         if self.maxsize is not None and self.count >= self.maxsize:
-            if not block or timeout is not None:
+            if not block:
                 raise _queue.Full
             while self.count >= self.maxsize:
-                k.block(lambda: self.count < self.maxsize, (self.role, "put"))
+                if timeout is not None:
+                    if not k.timed_block(lambda: self.count < self.maxsize, (self.role, "put")):
+                        raise _queue.Full
+                else:
+                    k.block(lambda: self.count < self.maxsize, (self.role, "put"))
         self.count += 1
         data = pickle.dumps(obj)
         proc = k.current.proc
@@ -454,12 +471,16 @@ class SimPipeQueue(_KernelObject):
         k = self.k
         k.switch(f"{self.role}.get", sync=True)
         if not self.pipe:
-            if not block or timeout is not None:
+            if not block:
                 if self.count > 0:
                     k.probe("pipe.get_empty_while_in_flight")
                 raise _queue.Empty
             while not self.pipe:
-                k.block(lambda: bool(self.pipe), (self.role, "get"))
+                if timeout is not None:
+                    if not k.timed_block(lambda: bool(self.pipe), (self.role, "get")):
+                        raise _queue.Empty
+                else:
+                    k.block(lambda: bool(self.pipe), (self.role, "get"))
         data = self.pipe.pop(0)
         self.count -= 1
         obj = pickle.loads(data)
@@ -575,8 +596,11 @@ class SimPopen:
     def wait(self, timeout=None):
         k = self.k
         k.switch(f"{self.task.role}.join", sync=True)
-        if timeout is None:
-            while not self.task.done:
+        while not self.task.done:
+            if timeout is not None:
+                if not k.timed_block(lambda: self.task.done, (self.task.role, "join")):
+                    break
+            else:
                 k.block(lambda: self.task.done, (self.task.role, "join"))
         return self.poll()
 
